@@ -202,7 +202,9 @@ def write_evidence(pid, tier, seed, aud, oc, wall, violations, extra_assumptions
     cov.update(oc.extra)
     ev = {
         'property_id': pid, 'tier': tier, 'seed': seed, 'level': 'proof', 'coverage': cov,
-        'assumptions': list(extra_assumptions) + oc.notes,
+        'assumptions': ['the Lean model equals the Python code on all inputs, not only on the inputs generated by this run (validated by differential execution, not proved)',
+                        'CPython / ElementTree / dateutil primitives behave as modelled (DESIGN.md section 8)',
+                        'Lean 4.33.0 kernel; axioms propext, Quot.sound, Classical.choice'] + list(extra_assumptions) + oc.notes,
         'wall_s': round(wall, 2), 'violations': violations,
     }
     with open(os.path.join(EVIDENCE_DIR, f'{pid}.json'), 'w', encoding='utf-8') as f:
